@@ -24,6 +24,27 @@ def comprehension(interp, xs, gens, i, child, emit):
     raise Unsupported('comprehension over symbolic-length sequence must be a plain list comprehension')
 
 
+def copy(xs, mutable=True):
+    """`list(xs)` / a snapshot of xs: same elements (the very same element objects), own identity.
+    A *mutable* copy is a cell: append / extend / insert replace its contents in place (see `method`)."""
+    c = SList(xs.length, xs.elem, xs.uid)
+    c.cache = xs.cache
+    c.parts = list(xs.parts) if xs.parts is not None else [('base', xs)]
+    c.immutable = not mutable
+    return c
+
+
+def frozen(v):
+    """operands captured by a derived sequence must not change afterwards: snapshot mutable ones"""
+    if isinstance(v, SList) and not v.immutable:
+        return copy(v, mutable=False)
+    return v
+
+
+def _replace_contents(xs, new):
+    xs.length, xs.elem, xs.uid, xs.cache, xs.parts = new.length, new.elem, new.uid, new.cache, new.parts
+
+
 def as_slist(interp, src):
     """SList view of a symbolic iterable: SList itself, the rest of an SIter (which is consumed), or an
     enumerate() of one of these."""
@@ -49,6 +70,7 @@ def as_slist(interp, src):
 def map_comprehension(interp, node, frame, xs):
     """ListComp / GeneratorExp node with a single generator over a symbolic sequence and no conditions."""
     from .interp import Frame, PyRaise, _comp_info
+    xs = frozen(xs)
     g = node.generators[0]
     st = interp.st
     xs = as_slist(interp, xs)
@@ -145,6 +167,7 @@ def slice_(interp, xs, sl):
     st = interp.st
     if sl.step is not None and sl.step != 1:
         raise Unsupported('slice step on symbolic sequence')
+    xs = frozen(xs)
     n = xs.length
 
     def norm(v, default):
@@ -169,6 +192,11 @@ def slice_(interp, xs, sl):
 def concat(interp, a, b):
     """a + b where at least one is an SList; the other may be a concrete list."""
     st = interp.st
+    a, b = frozen(a), frozen(b)
+    if not isinstance(a, SList):
+        a = list(a)
+    if not isinstance(b, SList):
+        b = list(b)
 
     def length(v):
         return v.length if isinstance(v, SList) else z3.IntVal(len(v))
@@ -189,6 +217,7 @@ def concat(interp, a, b):
 
     out = SList(z3.simplify(la + lb), elem, uid)
     out.volatile = True      # the element function case-splits: not memoised at this level
+    out.parts = parts_of(a) + parts_of(b)
     return out
 
 
@@ -216,6 +245,13 @@ def _grow(interp, xs, ys):
     xs.elem = elem
     xs.cache = {}
     xs.volatile = True
+
+
+def parts_of(v):
+    """Structural normal form of a (concatenated) sequence: pieces in order."""
+    if isinstance(v, SList):
+        return list(v.parts) if v.parts is not None else [('base', v)]
+    return [('elem', x) for x in v]
 
 
 def binop(interp, opcls, a, b):
@@ -248,12 +284,14 @@ def method(interp, xs, name, args, kwargs):
     from . import mlist
     if isinstance(xs, MList) and name in ('append', 'insert', 'pop', 'extend', 'copy', 'clear'):
         return mlist.method(interp, xs, name, args, kwargs)
+    if name in ('append', 'extend', 'insert') and not xs.immutable:
+        return _mutate_copy_cell(interp, xs, name, args)
     if name in ('insert', 'pop', 'clear', 'remove', 'sort', 'reverse'):
         raise Unsupported('mutation (%s) of an immutable symbolic sequence: declare it MListOf(...)' % name)
     if name == '__len__':
         return wrap(xs.length)
     if name == 'copy':
-        return xs
+        return copy(xs)
     if name == '__iter__':
         return models.SIter(xs, 0)
     if name == 'append':
@@ -269,6 +307,25 @@ def method(interp, xs, name, args, kwargs):
         _grow(interp, xs, ys)
         return None
     raise Unsupported('method %s on symbolic-length sequence' % name)
+
+
+def _mutate_copy_cell(interp, xs, name, args):
+    """append / extend / insert(0, .) on a mutable copy made by list(xs) (elements of any kind, e.g. opaque
+    objects): the cell's contents are replaced by the concatenation; aliases see the same object."""
+    snap = copy(xs, mutable=False)
+    if name == 'append':
+        new = concat(interp, snap, [args[0]])
+    elif name == 'extend':
+        other = args[0]
+        if isinstance(other, (SOpt, SChoice)):
+            other = interp.resolve(other)
+        new = concat(interp, snap, other if isinstance(other, SList) else list(interp.iterate(other)))
+    else:
+        if args[0] != 0 or isinstance(args[0], bool):
+            raise Unsupported('insert into a symbolic-length sequence other than at position 0')
+        new = concat(interp, [args[1]], snap)
+    _replace_contents(xs, new)
+    return None
 
 
 class FilteredSList(SList):
